@@ -4,6 +4,6 @@ TIER=${1:-quick}
 V=${VERIF_DIR:-/verif}; cd $V
 rc=0
 for p in $(python3 -c "import json;print(' '.join(c['property_id'] for c in json.load(open('MANIFEST.json'))['checks']))"); do
-  VERIF_TIER=$TIER bin/simcheck run -property $p -tier $TIER 2>&1 | grep -E "^simcheck: C|VIOLATION|KNOWN-FINDING|NONDET|tool|watchdog" 
+  VERIF_TIER=$TIER bin/simcheck run -property $p -tier $TIER 2>&1 | grep -E "^simcheck: (C[0-9]|search|tool|worker|build)|VIOLATION|KNOWN-FINDING|NONDET|WARNING: |tool error|watchdog|failed"
   r=$?
 done
